@@ -69,7 +69,7 @@ func (c *Ctx) errflowFunc(f *ssa.Function, exc map[string]string) {
 			c.ok(rule, key, pos, okMsg)
 			return
 		}
-		if why, ok := exc[key]; ok {
+		if why, ok := excLookupS(exc, key); ok {
 			c.exc(rule, key, pos, why)
 			return
 		}
@@ -219,7 +219,7 @@ func (c *Ctx) errflowFunc(f *ssa.Function, exc map[string]string) {
 					}
 				}
 				if zeroOther {
-					if why, ok := exc[key]; ok {
+					if why, ok := excLookupS(exc, key); ok {
 						c.exc("E2.R-stale", key, r.Pos(), why)
 					} else {
 						c.bad("E2.R-stale", key, r.Pos(), fmt.Sprintf("%s returns a zero value together with an error variable that is provably nil at this point: a failure is reported to the caller as success", fnName(f)))
@@ -249,7 +249,7 @@ func (c *Ctx) errflowFunc(f *ssa.Function, exc map[string]string) {
 						continue
 					}
 					key := fmt.Sprintf("%s R-swallow return nil under %s != nil", fnName(f), shape(ev, 2))
-					if why, ok := exc[key]; ok {
+					if why, ok := excLookupS(exc, key); ok {
 						c.exc("E2.R-swallow", key, r.Pos(), why)
 					} else {
 						c.bad("E2.R-swallow", key, r.Pos(), fmt.Sprintf("%s returns a nil error on the path where %s failed", fnName(f), shape(ev, 2)))
@@ -432,7 +432,7 @@ func (c *Ctx) lossyConversions(exc map[string]string, rels ...string) {
 			}
 			if okv {
 				c.ok(R, key, cv.Pos(), "conversion proved value-preserving at this point")
-			} else if why, ok := exc[key]; ok {
+			} else if why, ok := excLookupS(exc, key); ok {
 				c.exc(R, key, cv.Pos(), why)
 			} else {
 				c.bad(R, key, cv.Pos(), fmt.Sprintf("encode path converts %s to %s without a range check and writes the result: values outside the target range are encoded as something else without an error", cv.X.Type(), cv.Type()))
